@@ -128,6 +128,7 @@ def loops_in(t, start, end):
         kw = m.group(1)
         pos = start + m.end()
         if kw == 'do':
+            # CBMC 6.11 parses the clauses of a do-while loop directly after `do`
             offs.append(('do', pos))
             continue
         k = pos
